@@ -173,6 +173,10 @@ struct Inner {
     fault_note: Option<String>,
     /// a damaged image that still decodes to DIFFERENT deltas was handed out
     undetected: Option<String>,
+    /// (call index among get/put/rename since arming, kind: 0 = error without effect, 1 = put
+    /// stores a strict prefix and fails): used to run a flush that fails at its manifest step
+    write_fault: Option<(usize, u8)>,
+    wf_calls: usize,
 }
 #[derive(Clone, Debug)]
 enum ReadFault {
@@ -222,6 +226,16 @@ impl Inner {
     fn rec(&mut self, actor: u8, c: CallDesc) {
         self.rec_o(actor, c, "OK");
     }
+    fn wf_tick(&mut self) -> Option<u8> {
+        if let Some((idx, k)) = self.write_fault {
+            let n = self.wf_calls;
+            self.wf_calls += 1;
+            if n == idx {
+                return Some(k);
+            }
+        }
+        None
+    }
     fn rec_o(&mut self, actor: u8, c: CallDesc, o: &'static str) {
         if self.logging {
             self.log.push((actor, c));
@@ -254,6 +268,11 @@ impl ScriptedStore {
         g.snaps.clear();
         g.seg_gets = 0;
         g.logging = true;
+    }
+    fn arm_write_fault(&self, f: Option<(usize, u8)>) {
+        let mut g = self.inner.lock().unwrap();
+        g.write_fault = f;
+        g.wf_calls = 0;
     }
     fn arm_read_fault(&self, f: Option<ReadFault>) {
         self.inner.lock().unwrap().read_fault = f;
@@ -317,6 +336,19 @@ impl ObjectStore for ScriptedStore {
         Box::pin(async move {
             self.turn().await;
             let mut g = self.inner.lock().unwrap();
+            match g.wf_tick() {
+                Some(0) => {
+                    g.rec_o(self.actor, CallDesc::Put(Name::of(key)), "EN");
+                    return Err(IoError::new(ErrorKind::Other, "injected"));
+                }
+                Some(_) => {
+                    let n = data.len() / 2;
+                    g.map.insert(key.to_string(), Arc::new(data[..n].to_vec()));
+                    g.rec_o(self.actor, CallDesc::Put(Name::of(key)), "ET");
+                    return Err(IoError::new(ErrorKind::Other, "injected"));
+                }
+                None => {}
+            }
             g.map.insert(key.to_string(), Arc::new(data.to_vec()));
             g.rec(self.actor, CallDesc::Put(Name::of(key)));
             Ok(())
@@ -326,6 +358,7 @@ impl ObjectStore for ScriptedStore {
         Box::pin(async move {
             self.turn().await;
             let mut g = self.inner.lock().unwrap();
+            let _ = g.wf_tick();
             let mut res = g.map.get(key).map(|d| d.as_ref().clone()).ok_or_else(|| not_found(key));
             let mut outcome = "OK";
             if g.logging && matches!(Name::of(key), Name::Seg(_)) {
@@ -404,6 +437,10 @@ impl ObjectStore for ScriptedStore {
         Box::pin(async move {
             self.turn().await;
             let mut g = self.inner.lock().unwrap();
+            if g.wf_tick().is_some() {
+                g.rec_o(self.actor, CallDesc::Rename(Name::of(from), Name::of(to)), "EN");
+                return Err(IoError::new(ErrorKind::Other, "injected"));
+            }
             let res = match g.map.remove(from) {
                 Some(obj) => {
                     g.map.insert(to.to_string(), obj);
@@ -1062,6 +1099,28 @@ impl Layout {
         }
         p.st().list(T_OBJ, &v)
     }
+    /// the objects of a store image as Coq terms: a segment object that decodes is printed with
+    /// its deltas, one that does not (damaged, garbage, empty, torn) as an undecodable object;
+    /// the content of a stale temp manifest is never read by any operation and is printed as
+    /// an undecodable object under NTmp
+    fn objects_of_map(&self, map: &Map, p: &mut dyn Pr) -> String {
+        let mut v: Vec<String> = Vec::new();
+        for (k, d) in map.iter() {
+            match Name::of(k) {
+                Name::Seg(id) => match read_seg(d) {
+                    Some(ds) => v.push(format!("(OS {} {})", id, deltas_term(ds.iter(), p))),
+                    None => v.push(format!("(OT (NSeg {}))", id)),
+                },
+                Name::Ck(ts) => match &self.ck {
+                    Some(c) if c.key == *k && c.data == **d => v.push(format!("(OC {} {})", c.ts, kv_term(&c.state, p))),
+                    _ => v.push(format!("(OT (NCk {}))", ts)),
+                },
+                Name::Tmp => v.push("(OT NTmp)".to_string()),
+                _ => {}
+            }
+        }
+        p.st().list(T_OBJ, &v)
+    }
     /// a DEL whose older SET sits in another segment or in the checkpoint
     fn del_with_older_set_elsewhere(&self) -> bool {
         for (j, s) in self.segs.iter().enumerate() {
@@ -1348,6 +1407,85 @@ async fn run_case(seed: u64, i: u64, verbose: bool, inter: u64, plain: bool, out
     }
     out.count(fault_kind);
 
+    // ---- unreferenced leftovers in the store before the compaction starts (own stream): 38% of
+    // the cases.  The interesting spot is the key of next_segment_id, which the compaction is
+    // about to write.
+    let mut lrng = case_rng(seed ^ 0x13C0_1EF7, i);
+    let ldraw: f64 = lrng.gen();
+    let next_id = manifest.next_segment_id;
+    let seg_bytes = |ds: &[ReplicationDelta]| -> Vec<u8> {
+        let mut w = SegmentWriter::new(Compression::None);
+        for d in ds {
+            w.write_delta(d).unwrap();
+        }
+        w.finish().unwrap()
+    };
+    let tmp_key = format!("{}/manifest.json.tmp", PREFIX);
+    let mut leftover = "leftover:none";
+    if ldraw >= 0.62 && ldraw < 0.74 && !lay.flush_deltas.is_empty() {
+        // a real flush whose manifest step fails: put of the temp manifest (no effect / torn) or the rename
+        let st = ScriptedStore::new(map0.clone());
+        let cfg = WriteBufferConfig { backpressure_threshold_bytes: 1 << 20, compression_enabled: false, ..WriteBufferConfig::default() };
+        let mut sp = StreamingPersistence::new(Arc::new(st.clone()), PREFIX.to_string(), 1, cfg).await.expect("constructor on a healthy store");
+        for d in &lay.flush_deltas {
+            sp.push(d.clone()).expect("push below the backpressure threshold");
+        }
+        let (idx, kind, name) = match lrng.gen_range(0..3) {
+            0 => (2usize, 0u8, "leftover:real-flush-failed-at-put-of-temp-manifest"),
+            1 => (2, 1, "leftover:real-flush-failed-at-put-of-temp-manifest(torn)"),
+            _ => (3, 0, "leftover:real-flush-failed-at-rename"),
+        };
+        st.arm_write_fault(Some((idx, kind)));
+        let r = sp.flush().await;
+        st.arm_write_fault(None);
+        if r.is_err() {
+            map0 = st.map();
+            leftover = name;
+        }
+    } else if ldraw >= 0.74 {
+        let what = if ldraw < 0.84 { 0 } else if ldraw < 0.89 { 1 } else if ldraw < 0.92 { 2 } else if ldraw < 0.95 { 3 } else if ldraw < 0.98 { 4 } else { 5 };
+        let garbage: Vec<u8> = (0..lrng.gen_range(1..200usize)).map(|_| lrng.gen()).collect();
+        match what {
+            0 if !lay.flush_deltas.is_empty() => {
+                map0.insert(seg_key(next_id), Arc::new(seg_bytes(&lay.flush_deltas)));
+                leftover = "leftover:valid-segment-with-unrelated-deltas-under-next-id";
+            }
+            1 => {
+                map0.insert(seg_key(next_id), Arc::new(garbage.clone()));
+                leftover = "leftover:garbage-under-next-id";
+            }
+            2 => {
+                map0.insert(seg_key(next_id), Arc::new(Vec::new()));
+                leftover = "leftover:empty-object-under-next-id";
+            }
+            3 if !lay.segs.is_empty() => {
+                let src = &lay.segs[lrng.gen_range(0..lay.segs.len())];
+                map0.insert(seg_key(next_id), Arc::new(src.data.clone()));
+                leftover = "leftover:copy-of-an-input-under-next-id";
+            }
+            4 => {
+                map0.insert(seg_key(next_id + 1 + lrng.gen_range(0..3u64)), Arc::new(if lrng.gen_bool(0.5) || lay.flush_deltas.is_empty() { garbage.clone() } else { seg_bytes(&lay.flush_deltas) }));
+                if lrng.gen_bool(0.5) {
+                    // an id below next_segment_id that the manifest does not list (gap), if there is one
+                    if let Some(gap) = (0..next_id).find(|g| !lay.segs.iter().any(|s| s.id == *g)) {
+                        map0.insert(seg_key(gap), Arc::new(if lay.flush_deltas.is_empty() { garbage.clone() } else { seg_bytes(&lay.flush_deltas) }));
+                    }
+                }
+                leftover = "leftover:objects-under-other-unlisted-ids";
+            }
+            _ => {
+                leftover = "leftover:stale-temp-manifest-only";
+            }
+        }
+        if what == 5 || lrng.gen_bool(0.3) {
+            let stale = if lrng.gen_bool(0.5) { garbage } else { serde_json::to_vec_pretty(&Manifest::new(1)).unwrap() };
+            map0.insert(tmp_key.clone(), Arc::new(stale));
+            out.count("leftover:+stale-temp-manifest");
+        }
+    }
+    out.count(leftover);
+    let has_leftover = leftover != "leftover:none";
+
     // ---- sequential run
     let rec_b = do_recover(&map0).await;
     let store = ScriptedStore::new(map0.clone());
@@ -1359,7 +1497,7 @@ async fn run_case(seed: u64, i: u64, verbose: bool, inter: u64, plain: bool, out
     let outcomes: Vec<&'static str> = store.take_outcomes();
     let snaps: Vec<Map> = store.take_snaps();
     let fault_note = store.fault_note();
-    let faulted = read_fault.is_some() || damaged.is_some();
+    let faulted = read_fault.is_some() || damaged.is_some() || has_leftover;
     if let Some(n) = &fault_note {
         out.count(if n.contains("harmless") { "read-fault:flip-harmless" } else if n.contains("rejected") { "read-fault:flip-rejected" } else if n.contains("failed") { "read-fault:get-failed" } else { "read-fault:flip-undetected" });
         for r in ["(header)", "(data)", "(footer)"] {
@@ -1418,7 +1556,7 @@ async fn run_case(seed: u64, i: u64, verbose: bool, inter: u64, plain: bool, out
             st.list("seginfo", &seg_items),
             st.opt("ckinfo", &ck_item),
             manifest.next_segment_id.to_string(),
-            lay.objects_term(p, damaged),
+            lay.objects_of_map(&map0, p),
             sz.to_string(),
             cres.term(st),
             st.list("(prod call outcome)", &call_terms.iter().map(|(c, o)| st.pair("call", "outcome", c, o)).collect::<Vec<_>>()),
@@ -1524,6 +1662,7 @@ async fn run_case(seed: u64, i: u64, verbose: bool, inter: u64, plain: bool, out
     let get_failed = outcomes.iter().any(|o| *o == "EN");
     if verbose {
         println!("read fault of this case: {}{}", fault_kind, fault_note.as_ref().map(|n| format!(" - {}", n)).unwrap_or_default());
+        println!("unreferenced objects in the store before the compaction: {} -> {:?}", leftover, map0.keys().filter(|k| match Name::of(k) { Name::Seg(id) => !lay.segs.iter().any(|s| s.id == id), Name::Tmp => true, _ => false }).collect::<Vec<_>>());
     }
     if let (CRes::Err(e), false) = (&cres, get_failed) {
         out.count(&format!("violation:{}", V_COMPERR));
@@ -1884,7 +2023,7 @@ fn main() {
     let inter = args.get("inter", 6);
     let plain = args.get("plain", 0) != 0;
     let mut out = Out::new(&args.out, "C13", args.shards, HEADER);
-    out.nontrivial_rule = "a case = a layout of 2-6 segments (1-8 deltas each, the first one or two larger in 60%; real SegmentWriter) plus a checkpoint in 30% (last_segment_id below every listed id; real CheckpointWriter) and the manifest flush would have written, holding SET (30% with expiry) / DEL / HSET / HDEL updates over keys k/j/m (strings) and h/g (hashes, fields f1..f3; in half of the cases every replica writes its own field) issued by 2-4 real ShardReplicaStates with independent clocks (small with ties / interleaved with cross delivery / one far ahead), assigned to segments in generation order with swaps and duplicates (overlapping stamp ranges, the same key in several segments); 55% plant SET K early (first segment or checkpoint) and DEL K later; CompactionConfig: target_segment_size = the size of the largest or second largest segment in about half of the cases (segments of at least that size are skipped) else huge, min_segments_to_compact 2-3, max_segments_per_compaction 2/3/5, tombstone_ttl 100 ms or 24 h; time source 50% production-like (1.758e12), 25% 0, 25% a logical stamp of the layout + ttl; read faults of the sequential run, drawn per case from a separate stream: 25% one GET of an input segment returns the bytes with one bit flipped in header / record data / footer while the object at rest is intact (outcome GB if the real SegmentReader rejects the image, OK if the flip is harmless), 8% one GET of an input fails (EN), 12% one listed segment is damaged at rest (an undecodable object in the Coq case), 55% none; recovery itself always reads clean; every crash instant inside the compaction is recovered too; non-trivial = the compaction returned Ok; distinct by layout text. Interleavings (fault-free cases whose sequential compaction created a segment; not part of the Coq case, the model runs operations sequentially): one flush of 1-3 new deltas through the real StreamingPersistence runs concurrently with the compaction on a fresh copy of the layout; they are produced by admitting the two operations' store calls in a scripted order (two handles of one scripted store carrying an actor id, every store call waits with yield_now until the schedule names its actor, both futures driven by tokio::join! on a current-thread runtime); schedules = the flush's 4 calls as one block after j of the compaction's n calls (j = 0..n) plus --inter random merges".into();
+    out.nontrivial_rule = "a case = a layout of 2-6 segments (1-8 deltas each, the first one or two larger in 60%; real SegmentWriter) plus a checkpoint in 30% (last_segment_id below every listed id; real CheckpointWriter) and the manifest flush would have written, holding SET (30% with expiry) / DEL / HSET / HDEL updates over keys k/j/m (strings) and h/g (hashes, fields f1..f3; in half of the cases every replica writes its own field) issued by 2-4 real ShardReplicaStates with independent clocks (small with ties / interleaved with cross delivery / one far ahead), assigned to segments in generation order with swaps and duplicates (overlapping stamp ranges, the same key in several segments); 55% plant SET K early (first segment or checkpoint) and DEL K later; CompactionConfig: target_segment_size = the size of the largest or second largest segment in about half of the cases (segments of at least that size are skipped) else huge, min_segments_to_compact 2-3, max_segments_per_compaction 2/3/5, tombstone_ttl 100 ms or 24 h; time source 50% production-like (1.758e12), 25% 0, 25% a logical stamp of the layout + ttl; unreferenced leftovers in the store before the compaction starts (38% of the cases, own stream): the leftover of a REAL StreamingPersistence::flush run on the layout whose manifest step was failed by the scripted store (put of manifest.json.tmp without effect or torn, or the rename), or constructed directly: under the key of next_segment_id a valid segment with unrelated deltas / garbage bytes / an empty object / a copy of an input, objects under other unlisted ids (above next_segment_id, in an id gap), a stale manifest.json.tmp (garbage or an old manifest); read faults of the sequential run, drawn per case from a separate stream: 25% one GET of an input segment returns the bytes with one bit flipped in header / record data / footer while the object at rest is intact (outcome GB if the real SegmentReader rejects the image, OK if the flip is harmless), 8% one GET of an input fails (EN), 12% one listed segment is damaged at rest (an undecodable object in the Coq case), 55% none; recovery itself always reads clean; every crash instant inside the compaction is recovered too; non-trivial = the compaction returned Ok; distinct by layout text. Interleavings (fault-free cases whose sequential compaction created a segment; not part of the Coq case, the model runs operations sequentially): one flush of 1-3 new deltas through the real StreamingPersistence runs concurrently with the compaction on a fresh copy of the layout; they are produced by admitting the two operations' store calls in a scripted order (two handles of one scripted store carrying an actor id, every store call waits with yield_now until the schedule names its actor, both futures driven by tokio::join! on a current-thread runtime); schedules = the flush's 4 calls as one block after j of the compaction's n calls (j = 0..n) plus --inter random merges".into();
     if !verbose {
         std::panic::set_hook(Box::new(|_| {}));
     }
